@@ -34,18 +34,26 @@ class GateTimeout(BaseException):
 class Gate:
     """Start notifications + one release event per task."""
 
-    def __init__(self, n: int, use_processes: bool) -> None:
+    def __init__(self, n: int, use_processes: bool, with_done: bool = False) -> None:
         if use_processes:
             ctx = multiprocessing.get_context("fork")
             self.release = [ctx.Event() for _ in range(n)]
             self.started = ctx.Queue()
+            self.done = ctx.Queue() if with_done else None
             self._timeouts = ctx.Value("i", 0)
         else:
             self.release = [threading.Event() for _ in range(n)]
             self.started = queue.Queue()
+            self.done = queue.Queue() if with_done else None
             self._timeouts = None
             self._n_timeouts = 0
             self._lock = threading.Lock()
+
+    def body_done(self, k: int) -> None:
+        """Report (without blocking) that the body of task `k` is over: it will not touch its input any more.
+        Lets the harness serialise the bodies of tasks that write into their inputs."""
+        if self.done is not None:
+            self.done.put(k)
 
     def pass_through(self, k: int) -> None:
         """Report that gate `k` is reached (with the identity of the worker) and block until the
